@@ -306,6 +306,18 @@ def r3(ctx: Ctx) -> None:
     inner_puts = [(nf, n) for nf in ctx.eff._all_lambdas(cas) + list(cas.nested.values())
                   for n in ctx.cfg(nf).calls() if n.callee and n.callee.name == "boto.put_object"]
     if not puts and not inner_puts:
+        # ... or in a closure of a helper introduced later (the helper itself is analysed in place, its closures are not)
+        for cf, cn, _c in ctx.eff.transitive_calls(cas):
+            if cf is not cas and not ctx.prog.is_known(cf) and cn.callee and cn.callee.name == "boto.put_object":
+                inner_puts.append((cf, cn))
+        for n in g.calls():
+            if "inlined" in n.flags and n.callee is not None and n.callee.kind == "func":
+                for t in n.callee.funcs:
+                    for nf in list(t.nested.values()) + ctx.eff._all_lambdas(t):
+                        for cn in ctx.cfg(nf).calls():
+                            if cn.callee and cn.callee.name == "boto.put_object" and (nf, cn) not in inner_puts:
+                                inner_puts.append((nf, cn))
+    if not puts and not inner_puts:
         raise AnalysisError("put_object vanished from write_file_cas")
     for nf, n in inner_puts:
         ctx.ob("C08.R3", nf, "conditional PUT issued directly (not from a closure handed to a retry helper)", n, False,
